@@ -59,6 +59,7 @@
 #include "uncrustify_version.h"
 #include "unicode.h"
 #include "universalindentgui.h"
+#include "verif_hooks.h"
 #include "width.h"
 
 #include <cerrno>
@@ -1972,6 +1973,7 @@ static void uncrustify_start(const deque<int> &data)
 {
    // Parse the text into chunks
    tokenize(data, Chunk::NullChunkPtr);
+   VERIF_DUMP_CHUNKS("tok0");
    PROT_THE_LINE
 
    cpd.unc_stage = unc_stage_e::HEADER;
@@ -2409,6 +2411,7 @@ void uncrustify_file(const file_mem &fm, FILE *pfout, const char *parsed_file,
       align_backslash_newline();
    }
    dump_step(dump_file, "Final version");
+   VERIF_DUMP_CHUNKS("preout");
 
    // which output is to be done?
    if (cpd.html_file == nullptr)
@@ -2493,6 +2496,7 @@ void uncrustify_file(const file_mem &fm, FILE *pfout, const char *parsed_file,
 
 void uncrustify_end()
 {
+   VERIF_NEXT_FILE();
    // Free all the memory
    Chunk *pc;
 
